@@ -5,10 +5,16 @@ package main
 
 // ---- C09: lock discipline of the epoch set (ghost held(m.mu): 0 none, 1 read, 2 write) ----
 
+// Epoch-set invariant (used by C08): the map exists and never stores a nil *Epoch. Established by NewMultiEpoch,
+// preserved by the three writers (which require ep != nil), relied upon by the three getters.
+//@ spec func validEpochSet(m *MultiEpoch) bool = m.epochs != nil && (forall k uint64 :: has(m.epochs, k) ==> m.epochs[k] != nil)
+
 //@ func (*MultiEpoch) GetEpoch
 //@   requires held(m.mu) == 0
 //@   ensures held(m.mu) == 0
 //@   noframe
+//@   requires validEpochSet(m)
+//@   ensures result1 == nil ==> result0 != nil
 
 //@ func (*MultiEpoch) HasEpoch
 //@   requires held(m.mu) == 0
@@ -19,6 +25,9 @@ package main
 //@   requires held(m.mu) == 0 && m.epochs != nil
 //@   ensures held(m.mu) == 0
 //@   noframe
+//@   requires validEpochSet(m)
+//@   requires ep != nil
+//@   ensures validEpochSet(m)
 
 //@ func (*MultiEpoch) RemoveEpoch
 //@   requires held(m.mu) == 0
@@ -34,11 +43,17 @@ package main
 //@   requires held(m.mu) == 0 && m.epochs != nil
 //@   ensures held(m.mu) == 0
 //@   noframe
+//@   requires validEpochSet(m)
+//@   requires ep != nil
+//@   ensures validEpochSet(m)
 
 //@ func (*MultiEpoch) ReplaceOrAddEpoch
 //@   requires held(m.mu) == 0 && m.epochs != nil
 //@   ensures held(m.mu) == 0
 //@   noframe
+//@   requires validEpochSet(m)
+//@   requires ep != nil
+//@   ensures validEpochSet(m)
 
 //@ func (*MultiEpoch) HasEpochWithSameHashAsFile
 //@   requires held(m.mu) == 0
@@ -54,6 +69,7 @@ package main
 //@   requires held(m.mu) == 0
 //@   ensures held(m.mu) == 0
 //@   noframe
+//@   ensures forall i int :: 0 <= i && i < len(result) ==> has(m.epochs, result[i])
 //@   ensures forall i, j int :: 0 <= i && i < j && j < len(result) ==> result[i] >= result[j]
 //@   ensures forall i, j int :: 0 <= i && i < j && j < len(result) ==> result[i] != result[j]
 
@@ -61,21 +77,29 @@ package main
 //@   requires held(m.mu) == 0
 //@   ensures held(m.mu) == 0
 //@   noframe
+//@   ensures result1 == nil ==> result0 != nil
+//@   requires validEpochSet(m)
 
 //@ func (*MultiEpoch) GetOldestAvailableEpoch
 //@   requires held(m.mu) == 0
 //@   ensures held(m.mu) == 0
 //@   noframe
+//@   ensures result1 == nil ==> result0 != nil
+//@   requires validEpochSet(m)
 
 //@ func (*MultiEpoch) GetFirstAvailableBlock
 //@   requires held(m.mu) == 0
 //@   ensures held(m.mu) == 0
 //@   noframe
+//@   ensures result1 == nil ==> result0 != nil
+//@   requires validEpochSet(m)
 
 //@ func (*MultiEpoch) GetMostRecentAvailableBlock
 //@   requires held(m.mu) == 0
 //@   ensures held(m.mu) == 0
 //@   noframe
+//@   ensures result1 == nil ==> result0 != nil
+//@   requires validEpochSet(m)
 
 //@ func (*MultiEpoch) GetMostRecentAvailableEpochNumber
 //@   requires held(m.mu) == 0
@@ -91,15 +115,19 @@ package main
 //@   requires held(m.mu) >= 1
 //@   ensures held(m.mu) == old(held(m.mu))
 //@   noframe
+//@   option sort-members-fwd
+//@   ensures forall i int :: 0 <= i && i < len(result) ==> has(m.epochs, result[i])
 //@   ensures forall i, j int :: 0 <= i && i < j && j < len(result) ==> result[i] >= result[j]
 //@   ensures forall i, j int :: 0 <= i && i < j && j < len(result) ==> result[i] != result[j]
 //@   loop 0 invariant forall a, b int :: 0 <= a && a < b && b < len(epochNumbers) ==> epochNumbers[a] != epochNumbers[b]
 //@   loop 0 invariant forall a int :: 0 <= a && a < len(epochNumbers) ==> visited0(epochNumbers[a])
+//@   loop 0 invariant forall a int :: 0 <= a && a < len(epochNumbers) ==> has(m.epochs, epochNumbers[a])
 
 // helpers called while the epoch-set lock is held: they must not touch it (checked: lock-balanced, lock-call)
 
+// (*Epoch).Close runs the onClose callbacks (file / index / CAR-reader Close methods registered by NewEpochFromConfig): they
+// release resources owned by that Epoch and write no heap cell visible to the callers (assumed: noframe, body not framed).
 //@ func (*Epoch) Close
-//@   modifies all
 //@   noframe
 
 //@ func (*Config) ConfigFilepath
